@@ -492,11 +492,12 @@ def isotxs_rewrite_of_what_was_read_is_the_same_file(ng: int, niso: int, ichist:
     """write(read(file)) == file for ISOTXS and GAMISO: the library read from a file and written again by the real code
     produces the same sequence of stream writes (leading count, payload fields, trailing count of every record), field
     by field equal bytes - including the banded, reversed scatter rows and the isotope offsets.  Same enumeration as
-    isotxs_library_round_trip, x ISOTXS / GAMISO."""
+    isotxs_library_round_trip for ISOTXS; GAMISO with the fissile pattern 'first' only."""
     ng, niso, ichist = choose(ng, 1, 2), choose(niso, 1, 2), choose(ichist, 0, 1)
     nscmax, layout = SCAT_CFG[choose(sc, 0, 3)]
     layout = layout if ng == 2 else 0
     fis = FISSILE[choose(fp, 0, 2)]
+    assume(implies(gamiso, fp == 1))  # GAMISO: one fissile pattern (the code paths that differ do not depend on it)
     x = [x0, x1, x2, x3, x4, x5, x6]
     w = [w0, w1, w2, w3, w4, w5, w6, w7, w8, w9, w10, w11, w12, w13, w14, w15, w16, w17, w18, w19, w20, w21, w22, w23, w24, w25, w26, w27, w28, w29, w30, w31]
     lib, vals = xs_library(gamiso, ng, niso, ichist, nscmax, layout, fis, x, [w, [v + 1.0 for v in w]])
